@@ -90,6 +90,29 @@ def mon_c10(ops, impl):
     return out
 
 
+def mon_c12(ops, impl):
+    """write-side monitor (H2V/Spec/WriteMon.lean) on what the real codec handed to the transport"""
+    out = []
+    shut_seen = False
+    for i, (o, a) in enumerate(zip(ops, impl)):
+        w = o.split(" ")
+        if w[0] == "wr_new":
+            out.append((i, "mon_wr new"))
+            shut_seen = False
+        elif w[0] == "wr_set_max_frame":
+            out.append((i, "mon_wr maxf " + w[1]))
+        elif w[0] == "wr_buffer" and a == "ok":
+            out.append((i, "mon_wr item"))
+        elif w[0] in ("wr_ready", "wr_flush", "wr_shutdown"):
+            h = _f(a, "out=")
+            if h not in ("-", ""):
+                out.append((i, "mon_wr out " + h))
+            if _f(a, "shut=") == "1" and not shut_seen:
+                shut_seen = True
+                out.append((i, "mon_wr shut"))
+    return out
+
+
 # ---------------------------------------------------------------------------------------------- connection level
 
 def _f(ans, key):
@@ -216,6 +239,7 @@ PROPS = {
             ("H2V.Props.C20", "H2V.Props.C20.pong_lost_if_wake_before_cas"),
             ("H2V.Props.C20", "H2V.Props.C20.lock_order_acyclic"),
         ],
+        "parallel": 3,
         "profiles": [
             {"name": "threads", "quick": 40, "thorough": 1500, "shards": {"quick": 1, "thorough": 4}},
         ],
@@ -227,6 +251,7 @@ PROPS = {
         "assumptions": ["std::sync::Mutex, AtomicUsize (SeqCst-like atomicity of each step), AtomicWaker semantics", "mutex poisoning by foreign panics and compiler/CPU memory-model effects are outside the model"],
     },
     "C12": {
+        "monitor": mon_c12,
         "lean_targets": ["H2V.Props.C12"],
         "theorems": [
             ("H2V.Props.C12", "H2V.Props.C12.head_roundtrip"),
@@ -236,13 +261,14 @@ PROPS = {
             ("H2V.Props.C12", "H2V.Props.C12.reader_chunk_invariance"),
             ("H2V.Props.C12", "H2V.Props.C12.decode_agrees_with_rfc"),
             ("H2V.Props.C12", "H2V.Props.C12.writer_bytes_exact"),
+            ("H2V.Props.C12", "H2V.Props.C12.closing_drops_nothing"),
             ("H2V.Props.C12", "H2V.Props.C12.tx_within_max_frame_size"),
             ("H2V.Props.C12", "H2V.Props.C12.rx_oversize_rejected"),
             ("H2V.Props.C12", "H2V.Props.C12.wire_roundtrip_any_chunking"),
         ],
         "profiles": [
             {"name": "codecread", "quick": 250, "thorough": 3000, "shards": {"quick": 1, "thorough": 6}},
-            {"name": "codecwrite", "quick": 60, "thorough": 600, "shards": {"quick": 1, "thorough": 6}},
+            {"name": "codecwrite", "quick": 30, "thorough": 200, "shards": {"quick": 6, "thorough": 16}},
         ],
         "relations": {"spec_rd_all": rel_equal},
         "history_starts": ("rd_new", "wr_new"),
